@@ -7,7 +7,10 @@
 // at its first pthread_mutex_lock (--wrap=pthread_mutex_lock).
 //
 // case <id> <highWaterMark> <wc 0|1> <hw 0|1>
-//   EST | SEND <payload> <kres> | FSC <t> <payload> | FSE <t> <payload> | RUN <kres>* | EVW <kres>
+//   EST | SEND <payload> <kres> [ovl] | FSC <t> <payload> [ovl] | FSE <t> <payload> | RUN <kres>* | EVW <kres>
+//   (ovl: which send() overload: p = (const void*, int) [default], s = StringPiece, b = Buffer*; a loop-thread
+//    send(Buffer*) additionally reports what is left in the caller's buffer as event BufLeft:<n>; a foreign
+//    thread overwrites its own copy of the payload as soon as send() has returned)
 //   RD <payload> | EOF | RERR | HUP | ERR | RET <n> | SHUT | XSHUT | FC | FCD | DFIRE
 //   SR | SP | XSR | XSP | ODESTROY
 // end
@@ -24,6 +27,7 @@
 #include <sys/uio.h>
 #include <unistd.h>
 
+#include <algorithm>
 #include <deque>
 #include <functional>
 #include <iostream>
@@ -34,6 +38,7 @@
 #define private public
 #define protected public
 #include "muduo/net/TcpConnection.h"
+#include "muduo/net/Buffer.h"
 #include "muduo/net/EventLoop.h"
 #include "muduo/net/Channel.h"
 #include "muduo/net/TimerQueue.h"
@@ -262,9 +267,20 @@ int main()
     else if (k == "SEND")
     {
       string d = vh::bytesOfSpec(w[1]);
+      string ovl = w.size() > 3 ? w[3] : "p";
       g_script.clear();
       g_script.push_back(parseK(w[2]));
-      conn->send(d.data(), static_cast<int>(d.size()));
+      if (ovl == "s") conn->send(StringPiece(d));
+      else if (ovl == "b")
+      {
+        Buffer buf;
+        buf.append(d);
+        conn->send(&buf);
+        g_events.push_back("BufLeft:" + std::to_string(buf.readableBytes()));
+      }
+      else conn->send(d.data(), static_cast<int>(d.size()));
+      // the caller may reuse its memory as soon as send() has returned
+      std::fill(d.begin(), d.end(), '\xEE');
       g_script.clear();
     }
     else if (k == "FSC")
@@ -286,11 +302,16 @@ int main()
       f.release = new sem_t;
       sem_init(f.release, 0, 0);
       sem_t* rel = f.release;
-      f.th = std::thread([c, d, done, rel]() {
+      string ovl = w.size() > 3 ? w[3] : "p";
+      f.th = std::thread([c, d, done, rel, ovl]() mutable {
         t_release = rel;
         t_stall = true;
         t_stalled_once = false;
-        c->send(d.data(), static_cast<int>(d.size()));
+        if (ovl == "s") c->send(StringPiece(d));
+        else if (ovl == "b") { Buffer buf; buf.append(d); c->send(&buf); }
+        else c->send(d.data(), static_cast<int>(d.size()));
+        // the caller may reuse its memory as soon as send() has returned
+        std::fill(d.begin(), d.end(), '\xEE');
         t_stall = false;
         if (!t_stalled_once) { *done = true; sem_post(&g_reached); }
       });
